@@ -7,6 +7,7 @@ import (
 	"os"
 	"os/exec"
 	"path/filepath"
+	"sort"
 	"strings"
 	"sync"
 	"time"
@@ -133,6 +134,11 @@ func discharge(obls []*Obligation, dir string, timeoutS int, workers int) {
 				to = 4
 			}
 			r := runSolvers(dir, i, ob.Query, to, false, "")
+			if r.verdict == "unknown" && !knownFailing[ob.Name] && !ob.Cover && ob.Goal != "" {
+				if rs, ok := solveSplit(dir, i, ob, timeoutS); ok {
+					r = rs
+				}
+			}
 			if r.verdict == "unknown" && !knownFailing[ob.Name] {
 				// escalate: other random seeds (quantifier instantiation is
 				// order-sensitive), then a longer limit
@@ -175,4 +181,57 @@ func discharge(obls []*Obligation, dir string, timeoutS int, workers int) {
 		}(i, ob)
 	}
 	wg.Wait()
+}
+
+// solveSplit discharges an obligation conjunct by conjunct (see split.go).
+// ok=false: the goal does not split.  All parts unsat -> unsat; a sat part ->
+// sat (the split is an equivalence); otherwise unknown.
+func solveSplit(dir string, id int, ob *Obligation, timeoutS int) (solveResult, bool) {
+	parts := splitGoal(ob.Goal)
+	if len(parts) <= 1 {
+		return solveResult{}, false
+	}
+	start := time.Now()
+	res := solveResult{verdict: "unsat", solver: "split"}
+	solversUsed := map[string]bool{}
+	for k, p := range parts {
+		q, ok := queryWithGoal(ob.Query, ob.NegGoal, p)
+		if !ok {
+			return solveResult{}, false
+		}
+		sid := id*1000 + 500 + k
+		r := runSolvers(dir, sid, q, timeoutS, false, "")
+		if r.verdict == "unknown" {
+			for _, sd := range []int{solverSeed + 7, solverSeed + 13, solverSeed + 101} {
+				r = runSolversSeed(dir, sid, q, timeoutS, false, "", sd)
+				if r.verdict != "unknown" {
+					break
+				}
+			}
+		}
+		if r.verdict == "unknown" {
+			r = runSolvers(dir, sid, q, timeoutS*3, false, "")
+		}
+		switch r.verdict {
+		case "unsat":
+			solversUsed[r.solver] = true
+		case "sat":
+			r.dur = time.Since(start).Seconds()
+			return r, true
+		default:
+			res.verdict = "unknown"
+			res.out = fmt.Sprintf("goal part %d/%d undecided: %s", k+1, len(parts), r.out)
+			res.dur = time.Since(start).Seconds()
+			return res, true
+		}
+	}
+	var names []string
+	for n := range solversUsed {
+		names = append(names, n)
+	}
+	sort.Strings(names)
+	res.solver = "split(" + strings.Join(names, ",") + ")"
+	res.dur = time.Since(start).Seconds()
+	ob.Parts = len(parts)
+	return res, true
 }
